@@ -126,7 +126,7 @@ class GateReplacer(Visitor):
 
     def visit_LoopStatement(self, loop: LoopStatement):
         return LoopStatement(
-            iterations=self.visit(loop.iterations),
+            iterations=filter_float(self.visit(loop.iterations)),
             statements=self.visit(loop.statements),
         )
 
